@@ -58,6 +58,9 @@ func (c *c18) Cases(tier string, seed int64) []core.Case {
 					cs = append(cs, core.MkCase(fmt.Sprintf("%s-%s-%s-pairs-s%d", f, op, st, s), c18Params{r.Int63(), f, op, st, "seam", true}))
 				}
 			}
+			for _, op := range []string{"repair", "repair-dc"} {
+				cs = append(cs, core.MkCase(fmt.Sprintf("%s-%s-unwritable-target-s%d", f, op, s), c18Params{r.Int63(), f, op, "unwritable-target", "seam", false}))
+			}
 			cs = append(cs, core.MkCase(fmt.Sprintf("%s-create-s%d", f, s), c18Params{r.Int63(), f, "create", "inputs", "seam", false}))
 			for _, nb := range []int{2, 4, 5, 6} {
 				// block counts that are not 2^k-1 end in a partial last volume
@@ -83,6 +86,13 @@ func copyTree(src, dst string) error {
 		t := filepath.Join(dst, rel)
 		if info.IsDir() {
 			return os.MkdirAll(t, 0755)
+		}
+		if info.Mode()&os.ModeSymlink != 0 {
+			target, err := os.Readlink(p)
+			if err != nil {
+				return err
+			}
+			return os.Symlink(target, t)
 		}
 		in, err := os.Open(p)
 		if err != nil {
@@ -226,6 +236,12 @@ func newC18World(format string, seed int64, state string, forCreate bool) (*c18W
 			os.Remove(paths[2])
 		}
 		flip(0)
+	case "unwritable-target":
+		// a protected file that is missing AND cannot be written: a symbolic
+		// link into a directory that does not exist (PAR2: the 3-slice file)
+		k := map[string]int{"par2": 1, "par1": 0}[format]
+		os.Remove(paths[k])
+		os.Symlink(filepath.Join(root, "gone", "away", "target"), paths[k])
 	case "mangled":
 		os.WriteFile(paths[0], append(append([]byte(nil), w.files[0].Data...), 1, 2, 3), 0644)
 	case "volume-missing":
@@ -446,6 +462,14 @@ func (c *c18) Run(cs core.Case) core.Result {
 		r.Violate(core.CrashSig(p.Fmt+"."+p.Op, ref.panicked.Frame, ref.panicked.Msg), "fault-free run panicked: %s", ref.panicked.Msg)
 		return r.Done()
 	}
+	// The fault-free run meets the file system's own failures (state
+	// unwritable-target): a nil result still means everything is in order.
+	if strings.HasPrefix(p.Op, "repair") && ref.err == nil {
+		if bad := w.originalsIntact(refDir); len(bad) > 0 {
+			r.Violate("repair-nil-but-files-differ|"+p.Op, "%s %s [%s] without injected faults: Repair returned nil but %v are not the originals (write events: %v)", p.Fmt, p.Op, p.State, bad, writeSummary(ref.events))
+		}
+	}
+	r.SetAdd("fault_free_outcomes", fmt.Sprintf("%s|%s|%v", p.Op, p.State, ref.err))
 	n := len(ref.events)
 	if n == 0 {
 		r.Inconclusive("recording run observed no I/O call")
@@ -583,6 +607,12 @@ func (c *c18) Run(cs core.Case) core.Result {
 		capOK := true
 		if strings.HasPrefix(p.Op, "repair") {
 			capOK = w.withinCapacity(work)
+			if ref.err != nil && p.State == "unwritable-target" {
+				// the fault-free operation fails by itself here (the target
+				// cannot be written): the rerun may fail the same way, and a
+				// nil result is held to the truth below
+				capOK = false
+			}
 		}
 		again := w.run(work, p.Op, nil)
 		r.Count("reruns", 1)
